@@ -7,23 +7,6 @@ From Coq Require Import Lia.
 Local Open Scope N_scope.
 Open Scope list_scope.
 
-(* a character that ends the path and starts nothing *)
-Definition closer (c : N) : Prop := dot_sym c = true /\ c <> 46 /\ c <> 91 /\ c <> 32 /\ c <> 92 /\ c <> 40.
-
-Lemma ev_rule7_closer c t pos : closer c -> evG (PRef 7) (c :: t) pos PFail.
-Proof.
-  intros (Hs & H46 & H91 & _). eapply ev_ref; [reflexivity|].
-  apply ev_alt_r; [apply ev_seq_fail; apply (ev_lit_fail G [46; 46]); apply strip2_no; exact H46|].
-  apply ev_alt_r; [apply ev_seq_fail; apply ev_cap_fail; apply ev_seq_fail; apply (ev_lit_fail G [46]); apply strip1_no; exact H46|].
-  eapply ev_ref; [reflexivity|]. apply ev_seq_fail. apply ev_cap_fail. apply ev_seq_fail. eapply ev_ref; [reflexivity|]. apply ev_seq_fail.
-  apply (ev_lit_fail G [91]). apply strip1_no. exact H91.
-Qed.
-Lemma ev_rule8_closer c t pos : closer c -> evG (PRef 8) (c :: t) pos PFail.
-Proof.
-  intros (Hs & H46 & _). eapply ev_ref; [reflexivity|]. apply ev_seq_fail. apply ev_cap_fail. apply ev_seq_fail.
-  apply (ev_lit_fail G [46]). apply strip1_no. exact H46.
-Qed.
-
 Definition prefix_tokens (l : list fstep) : list token := TAct 8 :: fsteps_tokens 1 l ++ [TAct 2].
 
 Lemma ev_rule2_prefix l c t : forallb fstep_ok l = true -> closer c ->
@@ -75,10 +58,10 @@ Section ErrText.
   Notation execute := (execute cfg parse_float regex_ok).
   Notation exec_action := (exec_action cfg parse_float regex_ok).
 
-  Theorem garbage_after_path l c t : forallb fstep_ok l = true -> closer c ->
+  Theorem garbage_after_path l c t : forallb fstep_ok l = true -> forallb (fstep_okp parse_float) l = true -> closer c ->
     parse_with cfg parse_float regex_ok G (fchain_path l ++ c :: t) = ParseErr (ESyntax (1 + List.length (render_fsteps l)) RUnrecognized).
   Proof.
-    intros Hs Hc. unfold parse_with, parse_from.
+    intros Hs Hokp Hc. unfold parse_with, parse_from.
     rewrite (ev_peg_parse G _ _ (ev_garbage l c t Hs Hc) (peg_never_out_of_fuel _)). unfold garbage_tokens.
     assert (Hin : skipn 1 (fchain_path l ++ c :: t) = render_fsteps l ++ c :: t) by reflexivity.
     assert (Hs' : forallb fstep_ok l = true) by exact Hs.
@@ -87,12 +70,12 @@ Section ErrText.
     change (exec_action 8 [] 0 ps_init) with (AOk (mk [INode (Node KRoot (root_basic cfg) ONone)])). cbn [abind].
     rewrite <- app_assoc.
     destruct (exec_fsteps_tail cfg parse_float regex_ok (fchain_path l ++ c :: t) l (c :: t) 1 [INode (Node KRoot (root_basic cfg) ONone)]
-                ([TAct 2] ++ [TText (1 + List.length (render_fsteps l)) (1 + List.length (render_fsteps l) + List.length (c :: t)); TAct 1]) [] 0 Hs Hin) as (c1 & b1 & E).
+                ([TAct 2] ++ [TText (1 + List.length (render_fsteps l)) (1 + List.length (render_fsteps l) + List.length (c :: t)); TAct 1]) [] 0 Hs Hokp Hin) as (c1 & b1 & E).
     rewrite E. clear E. cbn [app Actions.execute].
     change (exec_action 2 c1 b1 ?st) with (abind (set_node_chain st) update_root_vg).
-    assert (Hch : exists n, set_node_chain (mk (INode (Node KRoot (root_basic cfg) ONone) :: map (fun s => INode (fnode_of cfg s)) l)) = AOk (mk [INode n])).
+    assert (Hch : exists n, set_node_chain (mk (INode (Node KRoot (root_basic cfg) ONone) :: map (fun s => INode (fnode_of cfg parse_float s)) l)) = AOk (mk [INode n])).
     { unfold set_node_chain, mk. cbn [params app]. destruct l as [|x r]; [eexists; reflexivity|].
-      pose proof (chain_fold_f cfg KRoot (root_basic cfg) (x :: r) ltac:(split; intros; discriminate) [] ltac:(constructor)) as F. cbn [link app] in F.
+      pose proof (chain_fold_f cfg parse_float KRoot (root_basic cfg) (x :: r) ltac:(split; intros; discriminate) [] ltac:(constructor)) as F. cbn [link app] in F.
       cbn [map] in *. rewrite F. eexists. reflexivity. }
     destruct Hch as (n & Hch). rewrite Hch. cbn [abind]. unfold update_root_vg, mk. cbn [params abind Actions.execute Actions.exec_action]. reflexivity.
   Qed.
